@@ -38,6 +38,9 @@ def cdecl(t, inner=""):
     if k in "cv":
         q = "const" if k == "c" else "volatile"
         sub = t[1]
+        if sub[0] == "f":
+            psl = ", ".join(cdecl(p) for p in sub[2]) or "void"
+            return cdecl(sub[1], "(* %s %s)(%s)" % (q, inner, psl))
         if sub[0] == "p":
             pointee = sub[1]
             if pointee[0] == "a":
